@@ -402,7 +402,23 @@ def check_C13(tier, seed, res, builtins, log):
         inp1 = pts
         inp2 = [x for p_ in pts[:400] for x in (p_, 33)] + pts[:200]
         inp3 = [x for p_ in pts[:600] for x in (0x23, p_)] + [x for p_ in pts[:200] for x in (0x23, p_, 33)]
-        for d, inp in ((d1, inp1), (d2, inp2), (d3, inp3)):
+        # one state reached from two different states over two different large classes (each compiled to a table)
+        other = {'alphabetic': 'alphanumeric', 'lowercase': 'alphabetic', 'numeric': 'alphanumeric', 'XID_Continue': 'XID_Start',
+                 'uppercase': 'alphabetic', 'alphanumeric': 'alphabetic', 'XID_Start': 'XID_Continue'}.get(name)
+        extra = []
+        if other is not None:
+            bo = ('bi', other)
+            d4 = {'name': 'BiD%d' % i, 'items': [('errortype',), R('simple', ('cat', ('alt', ('cat', ('chr', 0x23), bo), bi), ('star', bo))),
+                                                 R('simple', ('chr', 32))]}
+            pts4 = set()
+            for s_, e_ in preds[name] + preds[other]:
+                pts4.update([s_ - 1, s_, e_, e_ + 1])
+            pts4 = sorted(p_ for p_ in pts4 if is_scalar(p_))
+            if tier == 'quick' and len(pts4) > 700:
+                pts4 = sorted(rng.sample(pts4, 700))
+            inp4 = [x for p_ in pts4 for x in (p_, 32, 0x23, p_, 32, p_, p_, 32)]
+            extra.append((d4, inp4))
+        for d, inp in [(d1, inp1), (d2, inp2), (d3, inp3)] + extra:
             progs.append(d)
             cases[d['name']] = [{'prog': d['name'], 'id': 'all', 'ctor': 0, 'ncalls': len(inp) + 2, 'input': inp, 'script': [], 'clones': []}]
     status, traces, dumps = __import__('check').build_and_run(progs, cases, timeout=900)
@@ -556,6 +572,60 @@ def rewrite_equiv(r, rng):
     return r
 
 
+def small_trees(max_size):
+    """all regex trees with at most `max_size` nodes over the leaves 'a', 'b' and the operators * + ? concatenation |"""
+    by_size = {1: [('chr', 97), ('chr', 98)]}
+    for n in range(2, max_size + 1):
+        out = []
+        for t in by_size[n - 1]:
+            for op in ('star', 'plus', 'opt'):
+                out.append((op, t))
+        for k in range(1, n - 1):
+            for l in by_size[k]:
+                for r in by_size[n - 1 - k]:
+                    out.append(('cat', l, r))
+                    out.append(('alt', l, r))
+        by_size[n] = out
+    return [t for n in sorted(by_size) for t in by_size[n]]
+
+
+def exhaustive_small_regexes(tier, builtins, log):
+    """every small regex tree T as the lexer `'<' T '>' = 0`: expanded by the real macro (cargo check, dump
+    hooks) and compared with the model's DFA for every string (product exploration)"""
+    import check
+    trees = small_trees(5 if tier == 'quick' else 6)
+    R = gen_defs.rule
+    defs = [{'name': 'T%d' % i, 'items': [('errortype',), R('simple', ('cat', ('cat', ('chr', 60), t), ('chr', 62)))]} for i, t in enumerate(trees)]
+    work = pipeline.scratch_dir()
+    ws = os.path.join(work, 'ws_trees')
+    dump = os.path.join(work, 'dump_trees')
+    shutil.rmtree(dump, ignore_errors=True)
+    byname = {d['name']: d for d in defs}
+    crates = corpus.write_workspace(ws, defs, per_crate=max(40, len(defs) // 16 + 1))
+    status, blog = corpus.build_workspace(ws, crates, dump, byname, timeout=1200, mode='check', target_dir=os.path.join(pipeline.shared_target(), 'trees'))
+    lines = []
+    for d in defs:
+        dd = corpus.split_dump(corpus.read_dump(dump, d['name']))
+        if dd is not None:
+            lines += corpus.lexmodel_input(d['name'], def_lines(d), dd['body'], True, [])
+    rc, out, err = corpus.run_lexmodel(lines, timeout=3000)
+    stage, info, _, _ = corpus.parse_lexmodel(out)
+    shutil.rmtree(ws, ignore_errors=True)
+    failures = []
+    for d in defs:
+        nm = d['name']
+        if status.get(nm, {}).get('build') != 'ok':
+            failures.append((d, 'expansion', status.get(nm, {}).get('detail', '')[:200], []))
+            continue
+        for (chk, ok, detail) in stage.get(nm, []):
+            if not ok and (chk.startswith('bisim') or chk in ('compile', 'dump')):
+                failures.append((d, chk, detail[:300], check.words_of_detail(detail)))
+                break
+        if nm not in stage:
+            failures.append((d, 'stage', 'no stage result', []))
+    return len(defs), failures
+
+
 def check_C02(tier, seed, res, builtins, log):
     rng = random.Random(seed + 2)
     g = gen_defs.Gen(rng, builtins, unicode_p=0.03)
@@ -609,9 +679,28 @@ def check_C02(tier, seed, res, builtins, log):
             if pa != pb and len(violations) < 6:
                 violations.append({'definition': corpus.lexer_text(d), 'def_json': pipeline.def_to_json(d), 'input': c['input'], 'script': [],
                                    'what': 'tokens differ from the derivative-based reference matcher', 'actual': pa[:6], 'expected': pb[:6]})
-    cov = {'programs': len(progs), 'evaluations': n_cmp, 'distinct_nontrivial': len(pairs),
+    # bounded-exhaustive stream: every small regex tree, compared for every string
+    n_trees, failures = exhaustive_small_regexes(tier, builtins, log)
+    import check
+    for i, (d, chk, detail, words) in enumerate(failures[:6]):
+        v = None
+        if i < 3 and chk != 'expansion':
+            try:
+                v = check.search_failing_input('C01', pipeline.def_to_json(d), words, builtins, rng, budget=300)
+            except Exception as e:  # noqa
+                log('search failed: %r' % (e,))
+        if v is not None:
+            violations.append(v)
+        elif chk == 'expansion':
+            violations.append({'definition': corpus.lexer_text(d), 'def_json': pipeline.def_to_json(d), 'input': None, 'script': None, 'site': 'expansion',
+                               'what': 'small regex tree does not expand/compile: ' + detail})
+        else:
+            unresolved.append({'definition': corpus.lexer_text(d), 'def_json': pipeline.def_to_json(d), 'input': None, 'script': None, 'site': 'stage ' + chk,
+                               'no_failing_input': True, 'what': 'correspondence no longer checks: %s %s' % (chk, detail)})
+    cov = {'programs': len(progs) + n_trees, 'evaluations': n_cmp + n_trees, 'distinct_nontrivial': len(pairs) + n_trees,
+           'exhaustive_small_trees': n_trees, 'small_tree_failures': len(failures),
            'samples': [{'base': corpus.lexer_text(pairs[0][0]), 'rewritten': corpus.lexer_text(pairs[0][1])}] if pairs else [{}]}
-    return {'violations': violations, 'unresolved': unresolved, 'coverage': cov}
+    return {'violations': violations, 'unresolved': unresolved[:4], 'coverage': cov}
 
 
 # ---------------------------------------------------------------------------------------------
